@@ -23,6 +23,6 @@ MANIFEST_ENTRY = dict(
     category='other',
     engine='bounded',
     technique='sidecar contracts on the real functions: wiring / closed-form obligations from the AST discharged by z3 and the ring normaliser where the functions are within reach; bounded run-time contracts with independent oracles for the rest (never counted as proved)',
-    text='Discharged from the real source on every run (all values, stated small shapes): fold/unfold entry-wise and mask-wise with every entry and mask bit symbolic (n=4, 5, (2,3)): total conserved, mirror-invariant, fold(unfold(fold x)) = fold x incl. masks, folded input refused; operator folding guard (iff); misidentification mix and wrapper. Bounded run-time contracts (never counted as proved): Fold/unfold entry and mask laws on every shape with 1-5 dims and sizes <= 4, misidentification, operator overloads.',
+    text='Discharged from the real source on every run (all values, stated small shapes): fold/unfold entry-wise and mask-wise with every entry and mask bit symbolic (n=4, 5, (2,3)): total conserved, mirror-invariant, fold(unfold(fold x)) = fold x incl. masks, folded input refused; operator folding guard (iff); the exec-generated operator methods (table complete for + - * / // **, folding check first, data/mask/flags/labels/extrap_x per method); misidentification mix and wrapper. Bounded run-time contracts (never counted as proved): Fold/unfold entry and mask laws on every shape with 1-5 dims and sizes <= 4, misidentification, operator overloads.',
     note='bounded: see coverage.bounded.drivers[].bound in the evidence file for the exact domain of every driver',
 )
